@@ -464,7 +464,8 @@ impl G {
             IgnoreWithCtx => format!("{}.ignore_with_ctx({})", k[0], k[1]),
             MapCtx => format!("map_ctx(ctx+{:?}, {})", cs, k[0]),
             CtxJust => "just(..).configure(|c,ctx| c.seq(text(ctx)))".to_string(),
-            CtxRep => format!("{}.repeated().configure(|c,ctx| c.exactly(len(ctx))).collect::<Vec<_>>()", k[0]),
+            CtxRep if self.p.ok => format!("{}.repeated().configure(|c,ctx| c.exactly(len(ctx))).collect::<Vec<_>>()", k[0]),
+            CtxRep => format!("{}.repeated().try_configure(|c,ctx,span| if len(ctx)==2 {{ Err(Q{}) }} else {{ Ok(c.exactly(len(ctx))) }}).collect::<Vec<_>>()", k[0], self.id),
             WithState => format!("{}.with_state(Insp::fresh({}))", k[0], self.p.n),
             Rec => format!("recursive(|r{}| {})", self.p.n, k[0]),
             Ref => format!("r{}", self.p.n),
